@@ -37,6 +37,7 @@ func main() {
 	tier := flag.String("tier", "quick", "quick | thorough")
 	clusters := flag.String("clusters", ",c1", "comma separated cluster modes ('' = single node)")
 	only := flag.String("only", "", "substring filter on endpoint names")
+	flag.StringVar(&tempoRuleFlag, "tempo-rule", "", "date rule of the tempo tag tables: '' = learn from the real writer | utc | local")
 	flag.Parse()
 	switch *mode {
 	case "dump":
